@@ -218,6 +218,9 @@ inductive Reach (cfg : Cfg) : Conf → Prop
   | step {c : Conf} (i : Nat) : Reach cfg c → Reach cfg (c.sched cfg i)
   | tick {c : Conf} (ms : Nat) : Reach cfg c → Reach cfg (c.tick ms)
   | retire {c : Conf} : Reach cfg c → (∀ t ∈ c.th, t.pc = .done) → Reach cfg ⟨c.sh, []⟩
+  /-- the window counters may be overwritten at any time (by the calls of another breaker object that shares the
+      statistic after a rule reload): no statement below depends on them -/
+  | stat {c : Conf} (b t : Nat) : Reach cfg c → Reach cfg ⟨{ c.sh with bad := b, total := t }, c.th⟩
 
 theorem reach_run (cfg : Cfg) {c : Conf} (h : Reach cfg c) (es : List Ent) : Reach cfg (run cfg c es) := by
   induction es generalizing c with
@@ -359,13 +362,122 @@ theorem inv_step (cfg : Cfg) {c : Conf} (i : Nat) (h : Inv cfg c) : Inv cfg (c.s
       simp only
       omega
 
+theorem inv_stat (cfg : Cfg) {c : Conf} (b t : Nat) (h : Inv cfg c) :
+    Inv cfg ⟨{ c.sh with bad := b, total := t }, c.th⟩ :=
+  ⟨h.path, h.time, h.thTime, h.notify, h.probe⟩
+
 theorem reach_inv (cfg : Cfg) {c : Conf} (h : Reach cfg c) : Inv cfg c := by
   induction h with
+  | stat b t _ ih => exact inv_stat cfg b t ih
   | init => exact inv_init cfg
   | spawn p _ ih => exact inv_spawn cfg p ih
   | step i _ ih => exact inv_step cfg i ih
   | tick ms _ ih => exact inv_tick cfg ms ih
   | retire _ hd ih => exact inv_retire cfg ih hd
+
+/-! ## several breaker objects (rule reloads): every object is a breaker in the sense of `Reach` -/
+
+/-- every object of the world, with the calls bound to it, is a reachable single-breaker configuration — so every
+    theorem about `Reach` holds for the live breaker and for every retired one -/
+def WOK (w : World) : Prop := ∀ o ∈ w.objs, Reach o.cfg o.conf
+
+theorem wok_empty : WOK {} := by intro o ho; cases ho
+
+theorem wok_sync (w : World) (k : Nat) (h : WOK w) : WOK (w.sync k) := by
+  unfold World.sync
+  cases hk : w.objs[k]? with
+  | none => exact h
+  | some o =>
+    intro p hp
+    simp only [List.mem_map] at hp
+    obtain ⟨q, hq, rfl⟩ := hp
+    split_ifs
+    · exact Reach.stat _ _ (h q hq)
+    · exact h q hq
+
+theorem wok_tick (w : World) (ms : Nat) (h : WOK w) : WOK (w.tick ms) := by
+  intro p hp
+  simp only [World.tick, List.mem_map] at hp
+  obtain ⟨q, hq, rfl⟩ := hp
+  exact Reach.tick ms (h q hq)
+
+theorem wok_set (w : World) (k l : Nat) (o' : Obj) (h : WOK w) (ho : Reach o'.cfg o'.conf) :
+    WOK ⟨w.objs.set k o', l⟩ := by
+  intro p hp
+  rcases List.mem_or_eq_of_mem_set hp with hp | rfl
+  · exact h p hp
+  · exact ho
+
+theorem wok_step (w : World) (k j : Nat) (h : WOK w) : WOK (w.step k j) := by
+  unfold World.step
+  cases hk : w.objs[k]? with
+  | none => exact h
+  | some o =>
+    exact wok_sync _ k (wok_set w k w.live _ h (Reach.step j (h o (List.mem_of_getElem? hk))))
+
+theorem wok_bind (w : World) (c : Call) (h : WOK w) : WOK (w.bind c).1 := by
+  unfold World.bind
+  cases hk : w.objs[w.live]? with
+  | none => exact h
+  | some o =>
+    exact wok_sync _ w.live (wok_set w w.live w.live _ h (Reach.spawn [c] (h o (List.mem_of_getElem? hk))))
+
+theorem wok_reload (w : World) (cfg' : Cfg) (rid : Nat) (equal : Bool) (h : WOK w) : WOK (w.reload cfg' rid equal) := by
+  unfold World.reload
+  split_ifs
+  · exact h
+  · cases hk : w.objs[w.live]? with
+    | none =>
+      intro p hp
+      simp only [List.mem_append, List.mem_singleton] at hp
+      rcases hp with hp | rfl
+      · exact h p hp
+      · exact Reach.init
+    | some o =>
+      intro p hp
+      simp only [List.mem_append, List.mem_singleton] at hp
+      rcases hp with hp | rfl
+      · exact h p hp
+      · exact Reach.tick _ (Reach.stat _ _ Reach.init)
+
+theorem wok_advance (w : World) (t : WT) (h : WOK w) : WOK (advance w t).1 := by
+  unfold advance
+  split
+  · exact h
+  · exact wok_bind w _ h
+  · exact h
+
+theorem wok_wtstep (w : World) (t : WT) (h : WOK w) : WOK (t.step w).1 := by
+  unfold WT.step
+  split
+  · exact wok_advance _ _ (wok_reload w _ _ _ h)
+  · split
+    · exact h
+    · split
+      · split_ifs
+        · exact wok_advance _ _ (wok_step w _ _ h)
+        · exact wok_step w _ _ h
+      · exact wok_step w _ _ h
+
+theorem wok_wsched (c : WConf) (i : Nat) (h : WOK c.w) : WOK (c.sched i).w := by
+  unfold WConf.sched
+  cases c.ths[i]? with
+  | none => exact h
+  | some t => exact wok_wtstep c.w t h
+
+theorem wok_wrun (es : List Ent) : ∀ c : WConf, WOK c.w → WOK (wrun c es).w := by
+  induction es with
+  | nil => intro c h; exact h
+  | cons e r ih =>
+    intro c h
+    cases e with
+    | t i => exact ih _ (wok_wsched c i h)
+    | tick ms => exact ih _ (wok_tick c.w ms h)
+
+theorem wok_wstart (ps : List (List WCall)) : ∀ w : World, WOK w → WOK (wstart w ps).1 := by
+  induction ps with
+  | nil => intro w h; exact h
+  | cons p r ih => intro w h; exact ih _ (wok_advance w _ h)
 
 /-! ## listener order when notifications do not overlap with other threads' steps -/
 
